@@ -38,8 +38,19 @@ def short_vertices(code, L):
     return (s & m, (s >> L) & m)
 
 
-def colstr(t, code):
-    return '%d %d %d %d' % (t, TYPES[t][0], TYPES[t][1], code)
+def colstr(t, code, mut=False):
+    return '%d %d %d %d' % (t + (100 if mut else 0), TYPES[t][0], TYPES[t][1], code)
+
+
+def natural_layout(members):
+    """C/C++ natural struct layout (independent oracle for the static column list): offsets, sizeof, alignof"""
+    off = 0; al = 1; offs = []
+    for (sz, a) in members:
+        off = (off + a - 1) // a * a; offs.append(off); off += sz; al = max(al, a)
+    return offs, (off + al - 1) // al * al, al
+
+# the structs of harness2.cpp: members (size, alignment) in declaration order
+STRUCTS = {1: [(1, 1), (8, 8), (32, 8), (2, 2), (16, 16), (4, 4)], 2: [(4, 4), (1, 1), (16, 16), (3, 1), (2, 2)]}
 
 
 class CaseGen:
@@ -85,12 +96,14 @@ class CaseGen:
             else:
                 ts = (r.below(16),); tag = 'a'
             cols = []
-            for t in ts:
+            muts = {1: r.choice([(False,), (False,), (True,)]), 2: r.choice([(False, False), (True, True), (True, False)]),
+                    3: r.choice([(False, False, False), (False, True, False)])}[len(ts)]
+            for t, mu in zip(ts, muts):
                 if used and r.below(100) < dup_rate:
                     c = r.choice(used)                            # a column that is already there (or was refused)
                 else:
                     c = self.code(L, used)
-                used.append(c); cols.append(colstr(t, c))
+                used.append(c); cols.append(colstr(t, c, mu))
             ops.append(tag + ' ' + ' '.join(cols))
         return ops, used
 
@@ -146,6 +159,42 @@ class CaseGen:
                     out.append(self.finish(L, keep, ops, [1000, 1017, 1034]))
         return out
 
+    def fail_cases(self, scale):
+        """F cases (harness2: every allocation failure point of every Add) and S cases (static column lists)"""
+        r = self.r
+        out = []
+        for i in range(50 * scale):
+            L, keep = r.choice([(4, 1), (8, 0)])
+            maxc = 1 << (L - 1)
+            nops = r.range(1, min(12, maxc + 3))
+            ops, used = self.history(L, keep, nops, dup_rate=r.choice([0, 10, 25]))
+            out.append('F ' + self.finish(L, keep, ops, used))
+        for rep in range(2 * scale):        # fill to the column limit, group Add across it
+            ops = []; used = []
+            while len(used) < 7:
+                c = r.next(); used.append(c); ops.append('a ' + colstr(r.below(16), c, r.chance(1, 3)))
+            c1, c2 = r.next(), r.next()
+            ops.append('g %s %s' % (colstr(0, c1), colstr(3, c2))); ops.append('a ' + colstr(2, c1)); ops.append('a ' + colstr(2, c2))
+            out.append('F ' + self.finish(4, 1, ops, used + [c1, c2]))
+        for rep in range(10 * scale):       # only group Adds: the hash set of codes grows in the middle of Insert(begin, end)
+            ops = []; used = []
+            for _ in range(r.range(6, 14)):
+                ts = r.choice(TRIPLES) if r.below(3) else r.choice(PAIRS)
+                cs = [r.next() for _ in ts]; used += cs
+                ops.append(('h ' if len(ts) == 3 else 'g ') + ' '.join(colstr(t, c) for t, c in zip(ts, cs)))
+            out.append('F ' + self.finish(8, 0, ops, used))
+        for sid, ms in STRUCTS.items():
+            for keep in (0, 1):
+                for rep in range(5 * scale):
+                    ops = []
+                    for _ in range(r.range(0, 5)):
+                        if r.below(4) == 0: ops.append('r')
+                        else:
+                            idx = list(range(len(ms))); r.shuffle(idx)
+                            ops.append('m ' + ' '.join(map(str, idx[:r.range(1, 3)])))
+                    out.append('S %d %d M %s%s' % (sid, keep, ' '.join('%d:%d' % m for m in ms), ''.join(' ; ' + o for o in ops)))
+        return out
+
     def unit_cases(self, scale):
         """translator validation of GetVertices (v L code codeParam) and Ceil (c value mod)"""
         r = self.r
@@ -173,6 +222,7 @@ class CaseGen:
 def parse_case(case):
     w = case.split(' ; ')
     head = w[0].split()
+    if head[0] == 'F': head = head[1:]
     L, keep = int(head[0]), int(head[1])
     segs = [' '.join(head[2:])] + w[1:]
     ops = []; universe = []
@@ -181,7 +231,7 @@ def parse_case(case):
         if not t: continue
         if t[0] in ('a', 'g', 'h'):
             n = {'a': 1, 'g': 2, 'h': 3}[t[0]]
-            cols = [(int(t[1 + 4 * k + 3]), int(t[1 + 4 * k + 1]), int(t[1 + 4 * k + 2])) for k in range(n)]   # (code,size,align)
+            cols = [(int(t[1 + 4 * k + 3]), int(t[1 + 4 * k + 1]), int(t[1 + 4 * k + 2]), int(t[1 + 4 * k]) >= 100) for k in range(n)]   # (code,size,align,mutable)
             ops.append(cols)
             for c in cols:
                 if c[0] not in universe: universe.append(c[0])
@@ -195,8 +245,14 @@ def check_case(case, out):
     """the property itself on the observations of the real DataColumnList.  returns (problem or None, nontrivial)"""
     if out.startswith('HARNESS') or out.startswith('?'):
         return 'harness problem: ' + out[:200], False
+    if case.startswith('S '):
+        return check_static(case, out)
     L, keep, ops, universe = parse_case(case)
     segs = out.split(' ; ')
+    if case.startswith('F '):
+        if segs[-1] != 'af ok':
+            return 'allocation failure inside Add: ' + segs[-1], False
+        segs = segs[:-1]
     if len(segs) != len(ops) + 2:
         return 'output has %d segments for %d ops' % (len(segs), len(ops)), False
     if segs[-2] != 'raw ok':
@@ -215,7 +271,7 @@ def check_case(case, out):
     nontriv = False
     for k, (op, seg) in enumerate(zip(ops, segs)):
         parts = [p.split() for p in seg.split('|')]
-        if len(parts) != 4:
+        if len(parts) != 5:
             return 'op %d: malformed segment' % k, False
         st, cp, ts, al, n = parts[0][0], int(parts[0][1]), int(parts[0][2]), int(parts[0][3]), int(parts[0][4])
         recs = [tuple(map(int, x.split(':'))) for x in parts[0][5:]]
@@ -242,7 +298,7 @@ def check_case(case, out):
             for (c, r) in zip(op, recs[len(cols):]):
                 if r[0] != c[0]:
                     return 'op %d: record code %d != added code %d' % (k, r[0], c[0]), False
-                cols.append((c[0], c[1], c[2], r[1]))
+                cols.append((c[0], c[1], c[2], r[1], c[3]))
             if len(set(c[0] for c in cols)) != len(cols):
                 return 'op %d: the same column was accepted twice' % k, False
             for c in cols:
@@ -270,8 +326,46 @@ def check_case(case, out):
             want = str(offs[code]) if code in offs else '-'
             if x != want:
                 return 'op %d: Contains(%d) gives %s, expected %s' % (k, code, x, want), False
+        # IsMutable: exactly the offsets of the columns added as mutable; the bit array covers the row
+        mpart = parts[4]
+        if cols:
+            want = sorted(c[3] for c in cols if c[4])
+            if [int(x) for x in mpart[2:]] != want:
+                return 'op %d: IsMutable true at %s, mutable columns are at %s' % (k, mpart[2:], want), False
+            if int(mpart[1]) * 8 < ts:
+                return 'op %d: mMutableOffsets has %s bytes for a row of %d bytes' % (k, mpart[1], ts), False
         prev_body = body
     return None, (nontriv or len(cols) >= 6)
+
+
+def check_static(case, out):
+    """DataColumnListStatic: offsets = the struct's member offsets (natural layout computed here, independently)"""
+    w = case.split(' ; ')
+    head = w[0].split()
+    sid, keep = int(head[1]), int(head[2])
+    ms = [tuple(map(int, m.split(':'))) for m in head[4:]]
+    offs, size, al = natural_layout(ms)
+    segs = [x.strip() for x in out.split(';')]
+    if len(segs) != len(w) - 1 + 3:
+        return 'static list: %d output segments for %d ops' % (len(segs), len(w) - 1), False
+    h = [p.split() for p in segs[0].split('|')]
+    if [int(x) for x in h[0]] != [size, al, size + (8 if keep else 0), al]:
+        return 'static list: sizeof/alignof/GetTotalSize/GetAlignment %s, expected %s' % (h[0], [size, al, size + 8 * keep, al]), False
+    for name, part in (('offsetof', h[1]), ('GetOffset', h[2]), ('Contains', h[3])):
+        if [x for x in part] != [str(o) for o in offs]:
+            return 'static list: %s gives %s, member offsets are %s' % (name, part, offs), False
+    cur = set()
+    for op, seg in zip(w[1:], segs[1:]):
+        t = op.split()
+        if t[0] == 'r': cur = set()
+        else: cur |= set(offs[int(i)] for i in t[1:])
+        if sorted(int(x) for x in seg.split()) != sorted(cur):
+            return 'static list: IsMutable true at %s, expected %s' % (seg, sorted(cur)), False
+    if segs[-2] != 'raw ok':
+        return 'static list rows: ' + segs[-2], False
+    if segs[-1].split()[1:] != [str(o) for o in offs]:
+        return 'static list: VisitPointers visited %s' % segs[-1], False
+    return None, True
 
 
 def check_unit(case, out):
@@ -291,10 +385,11 @@ def check_unit(case, out):
 
 
 def replay(ctx, rp):
-    harness = ctx.cxx('harness.cpp', 'harness')
+    case = rp.get('case')
+    two = bool(case) and case[0] in 'FS'
+    harness = ctx.cxx('harness2.cpp', 'harness2', ['-Wno-invalid-offsetof']) if two else ctx.cxx('harness.cpp', 'harness')
     if harness is None:
         print('harness does not build'); return 2
-    case = rp.get('case')
     if not case:
         print('replay has no concrete case (no-failing-input-found): broken stages were', list(rp.get('broken', {}).keys())); return 1
     path = os.path.join(ctx.build, 'replay.cases'); open(path, 'w').write(case + '\n')
@@ -309,29 +404,55 @@ def replay(ctx, rp):
     print('property holds on this case'); return 0
 
 
+def run_isolating(ctx, exe, cases, tag):
+    """run the harness over all cases; if it dies (assertion / signal) the case it died on is reported and the run
+    continues behind it, so one crash does not hide the other cases.  returns [(case, output line)]"""
+    res = []; rest = list(cases); crashes = 0
+    while rest:
+        path = os.path.join(ctx.build, 'oracle-%s.cases' % tag)
+        open(path, 'w').write('\n'.join(rest) + '\n')
+        rc, lines, err = ctx.run_lines([exe], path, timeout=120)     # rc 124 = hung (e.g. a corrupted edge list)
+        n = min(len(lines), len(rest))
+        res += list(zip(rest[:n], lines[:n]))
+        if rc == 0 and n == len(rest):
+            break
+        if n < len(rest):
+            tail = ' '.join(l for l in err.strip().splitlines()[-3:] if not l.startswith('af '))[-400:]
+            res.append((rest[n], '<harness died on this case (%s)> %s' % ('hung: timeout' if rc == 124 else 'exit %s' % rc, tail)))
+            rest = rest[n + 1:]; crashes += 1
+            if crashes >= 4:
+                break
+        else:
+            break
+    return res
+
+
 def run(ctx):
+    import concurrent.futures as cf
     scale = 1 if ctx.quick() else 8
     ctx.trusted += ['tools/cxx2coq.py + clang 14 JSON AST for GetVertices and Ceil (validated on every run against the real functions)',
                     'extraction: ExtrOcamlBasic only (no Extract Constant), OCaml 4.13.1, zarith for decimal I/O only',
-                    'g++ 12 -std=c++17, harness reaches mAddends/mCodeParam via #define private public',
-                    'hand-written executable model of pvAdd/FillAddends/Contains (Model.v), tied by running it against the real DataColumnList on every case']
+                    'g++ 12 -std=c++17, harness reaches mAddends/mCodeParam/mMutableOffsets/mColumnCodeSet via #define private public',
+                    'hand-written executable model of pvAdd/FillAddends/Contains/IsMutable/static list (Model.v, Static.v), tied by running it against the real classes on every case']
     ctx.assumptions += ['item sizes <= 2^32 bytes, alignment a power of two <= 16 dividing the size (ObjectAlignmenter::Check with maxAlignment 16)',
                         'column codes are 64-bit; 4 <= logVertexCount <= 15; maxCodeParam = 255',
-                        'mColumnCodeSet is modelled as a finite set (HashSet correctness is C01)',
-                        'memory allocation failures inside Add (Reserve/SetCount/Insert) are not modelled']
-    import concurrent.futures as cf
-    pool = cf.ThreadPoolExecutor(max_workers=5)
-    fut = pool.submit(ctx.cxx, 'harness.cpp', 'harness')      # ~45 s of g++: overlap it with regen/prove/extract
+                        'mColumnCodeSet is modelled as a finite set with strong-guarantee Insert (HashSet correctness is C01/C03)',
+                        'an allocation failure inside Add is a std::bad_alloc thrown by Reserve / SetCount / Insert, each with the strong guarantee']
+    pool = cf.ThreadPoolExecutor(max_workers=6)
+    fut1 = pool.submit(ctx.cxx, 'harness.cpp', 'harness')      # ~45 s of g++: overlap with regen/prove/extract
+    fut2 = pool.submit(ctx.cxx, 'harness2.cpp', 'harness2', ['-Wno-invalid-offsetof'])
     ctx.regen(GEN)
     ctx.prove()
     have_model = bool(ctx.stages.get('prove', {}).get('ok') and ctx.stages.get('regen', {}).get('ok') and ctx.extract())
-    harness = fut.result()
-    if harness is None:
-        ctx.stage('build-harness', False, getattr(ctx, 'last_cxx_error', ''))
+    harness = fut1.result(); err1 = getattr(ctx, 'last_cxx_error', '')
+    harness2 = fut2.result()
+    if harness is None or harness2 is None:
+        ctx.stage('build-harness', False, getattr(ctx, 'last_cxx_error', '') or err1)
         return ctx.finish(rule=RULE)
     gen = CaseGen(ctx)
     units = gen.unit_cases(scale)
     cases = gen.cases(scale)
+    cases2 = gen.fail_cases(scale)
     if have_model:
         mism, _ = ctx.correspond('translator-validation', units, [harness], [ctx.model_exe])
         ctx.tie_obligations.append({'name': 'generated GetVertices/Ceil == real C++ on %d cases' % len(units), 'ok': not mism})
@@ -339,49 +460,59 @@ def run(ctx):
             ctx.violation('generated Gallina and the real function disagree', {'case': c, 'impl': a, 'model': b}, found_input=True)
         # the model side is slow for logVertexCount 15: run 4 chunks in parallel, record one stage
         ev0, tv0 = ctx.evaluations, ctx.traces_validated
-        chunks = [cases[k::4] for k in range(4)]
-        res = list(pool.map(lambda kc: ctx.correspond('model-vs-DataColumnList-%d' % kc[0], kc[1], [harness], [ctx.model_exe], stage=False),
+        chunks = [(harness, cases[k::4]) for k in range(4)] + [(harness2, cases2)]
+        res = list(pool.map(lambda kc: ctx.correspond('model-vs-DataColumnList-%d' % kc[0], kc[1][1], [kc[1][0]], [ctx.model_exe], timeout=240, stage=False),
                             list(enumerate(chunks))))
         mism = [m for (ms, _) in res for m in ms]
         crashed = [r for (_, r) in res if r[0] != 0 or r[2] != 0]
-        ctx.evaluations = ev0 + len(cases); ctx.traces_validated = tv0 + len(cases) - len(mism)
+        ncases = len(cases) + len(cases2)
+        ctx.evaluations = ev0 + ncases; ctx.traces_validated = tv0 + ncases - len(mism)
         ctx.stage('corr:model-vs-DataColumnList', not mism and not crashed,
                   ('first disagreement: case %r impl=%r model=%r (%d total)' % (mism[0][1][:300], mism[0][2][:300], mism[0][3][:300], len(mism)) if mism else '') +
-                  (' harness/model exit codes %s %s' % (crashed[0][0], crashed[0][2]) if crashed else ''))
-        ctx.tie_obligations.append({'name': 'extracted model == real DataColumnList (status, codeParam, sizes, offsets, lookups, Contains, addends table) on %d histories' % len(cases), 'ok': not mism})
+                  (' harness/model exit codes %s %s %s' % (crashed[0][0], crashed[0][2], crashed[0][1][-300:]) if crashed else ''))
+        ctx.tie_obligations.append({'name': 'extracted model == real DataColumnList (status, codeParam, sizes, offsets, lookups, Contains, addends table, IsMutable, '
+                                            'mMutableOffsets count, item life-cycle traces) on %d histories; == real DataColumnListStatic on %d cases; %d histories '
+                                            'with every allocation failure point enumerated' % (len(cases), sum(c.startswith('S') for c in cases2), sum(c.startswith('F') for c in cases2)),
+                                    'ok': not mism and not crashed})
         for (i, c, a, b) in mism[:2]:
             ctx.violation('model and implementation disagree', {'case': c, 'impl': a, 'model': b}, found_input=True)
     if any(not s['ok'] for s in ctx.stages.values()):
         ctx.log('a stage broke: searching the implementation for a failing input with the thorough generator')
         cases = cases + gen.cases(6)
+        cases2 = cases2 + gen.fail_cases(4)
         units = units + gen.unit_cases(4)
-    allc = units + cases
-    path = os.path.join(ctx.build, 'oracle.cases')
-    open(path, 'w').write('\n'.join(allc) + '\n')
-    rc, lines, err = ctx.run_lines([harness], path)
-    ctx.evaluations += len(allc)
+    f1 = pool.submit(run_isolating, ctx, harness, units + cases, '1')
+    f2 = pool.submit(run_isolating, ctx, harness2, cases2, '2')
+    results = f1.result() + f2.result()
+    ctx.evaluations += len(results)
     bad = []
-    dist = {'ops': 0, 'added': 0, 'refused': 0, 'too_many': 0, 'retries': 0}
-    for i, c in enumerate(allc):
-        out = lines[i] if i < len(lines) else '<missing: harness crashed> ' + err[-300:]
-        if i < len(units):
+    dist = {'ops': 0, 'added': 0, 'refused': 0, 'too_many': 0, 'retries': 0, 'mutable_columns': 0}
+    for (c, out) in results:
+        if c.split()[0] in ('v', 'c'):
             why = check_unit(c, out)
+        elif out.startswith('<harness died'):
+            why = out
         else:
-            why, nt = check_case(c, out) if i < len(lines) else (out, False)
+            why, nt = check_case(c, out)
             if nt: ctx.nontrivial.add(c)
-            for seg in out.split(' ; ')[:-2]:
-                dist['ops'] += 1
-                dist['added'] += seg.startswith('A'); dist['refused'] += seg.startswith('R'); dist['too_many'] += seg.startswith('T')
-                dist['retries'] += (seg.startswith('A') and not seg.startswith('A 0 '))
+            if not c.startswith('S '):
+                for seg in out.split(' ; '):
+                    if seg[:2] in ('A ', 'R ', 'T '):
+                        dist['ops'] += 1
+                        dist['added'] += seg.startswith('A'); dist['refused'] += seg.startswith('R'); dist['too_many'] += seg.startswith('T')
+                        dist['retries'] += (seg.startswith('A') and not seg.startswith('A 0 '))
+                dist['mutable_columns'] += sum(1 for t in c.split() if t.isdigit() and 100 <= int(t) < 116)
         if why:
             bad.append((c, out, why))
             if len(bad) >= 5: break
     ctx.stage('oracle', not bad, bad[0][2] if bad else '')
     for (c, out, why) in bad[:3]:
-        ctx.violation(why, {'case': c, 'impl_output': out[:2000], 'cmd': "echo '%s' | build/C18/harness" % c}, found_input=True)
-    for c in cases[::max(1, len(cases) // 6)][:6]:
+        ctx.violation(why, {'case': c, 'impl_output': out[:2000],
+                            'cmd': "echo '%s' | build/C18/%s" % (c, 'harness2' if c[0] in 'FS' else 'harness')}, found_input=True)
+    for c in (cases[::max(1, len(cases) // 4)][:4] + cases2[:1] + cases2[-1:]):
         ctx.add_sample(c[:400])
     dist['histories'] = len(cases); dist['unit_cases'] = len(units)
+    dist['alloc_failure_histories'] = sum(c.startswith('F') for c in cases2); dist['static_list_cases'] = sum(c.startswith('S') for c in cases2)
     ctx.coverage['input_distribution'] = dist
     return ctx.finish(rule=RULE)
 
@@ -390,4 +521,6 @@ RULE = ('cases = Add histories on the real DataColumnList for logVertexCount in 
         '20-column universe with string-hash codes, random histories (single/pair/triple Add; codes: string hashes, member-offset '
         'like, random 64-bit, boundary values, codes dense in the vertex space, permanent vertex collisions, duplicates), fills to the '
         'column limit +1, all ordered type pairs; plus unit cases for GetVertices/Ceil.  distinct = distinct case line; non-trivial = '
-        'a history with a retry (codeParam > 0), a refusal, or at least 6 columns')
+        'a history with a retry (codeParam > 0), a refusal, or at least 6 columns.  Plus (harness2) histories over a memory manager '
+        'whose k-th allocation fails, every k until the Add gets through, and DataColumnListStatic over two real structs with '
+        'MOMO_DATA_COLUMN_STRUCT columns (SetMutable/ResetMutable sequences, rows, VisitPointers)')
